@@ -20,7 +20,7 @@ over the absorbed entries; promote_and_insert refreshes a covering entry with th
 (d) subscriptions whose fabric vanished or that expired are removed (shared with C07-d); is_expired depends on reported_at and
 max_int_secs.
 """
-CLAUSES = ['a: watermarks committed on success only; failures retried with the same content (restored from the last success and nothing else)', 'b: purge accounts for in-flight subscriptions', 'c: coalescing keeps the newest change id',
+CLAUSES = ['a: watermarks committed on success only; failures retried with the same content (restored from the last success and nothing else); a report that sent nothing does not restart the liveness clock; the reporting slot is vacated only by its own report', 'b: purge accounts for in-flight subscriptions', 'c: coalescing keeps the newest change id',
            'd: expired subscriptions removed', 'e: one report-due predicate; a report covers exactly the events it commits; table and request buffers compacted in step']
 NOT_DECIDED = ['eventual delivery (liveness)', 'min/max interval timing', 'identical content of a retried report', 'restarts with persisted subscriptions']
 MIN_OBLIGATIONS = {'q': 22, 'd': 22, 'r': 22}
